@@ -120,24 +120,33 @@ func builtinProcessors(c *core.Ctx) []*procInfo {
 		}
 		top := []*ssa.Function{props}
 		all := core.WithAnon(props)
-		// helpers of the same package that the method calls or passes as callbacks belong to its body
-		for _, f := range append([]*ssa.Function(nil), all...) {
-			for _, b := range f.Blocks {
+		// helpers of the same package (functions and methods) that the method calls or passes as callbacks, transitively,
+		// belong to its body; contract methods of other processors do not
+		seen := map[*ssa.Function]bool{}
+		for _, f := range all {
+			seen[f] = true
+		}
+		for i := 0; i < len(all) && len(all) < 64; i++ {
+			for _, b := range all[i].Blocks {
 				for _, in := range b.Instrs {
 					var ops []*ssa.Value
 					for _, op := range in.Operands(ops) {
 						if *op == nil {
 							continue
 						}
-						if g, ok := (*op).(*ssa.Function); ok && g.Blocks != nil && core.PkgOf(g) == core.PkgOf(props) && g.Signature.Recv() == nil {
-							dup := false
-							for _, x := range all {
-								if x == g {
-									dup = true
-								}
+						g, ok := (*op).(*ssa.Function)
+						if !ok || g.Blocks == nil || seen[g] || core.PkgOf(g) != core.PkgOf(props) {
+							continue
+						}
+						if g.Signature.Recv() != nil && g.Object() != nil {
+							if fo, ok := g.Object().(*types.Func); ok && isContractMethod(c, fo) {
+								continue
 							}
-							if !dup {
-								all = append(all, core.WithAnon(g)...)
+						}
+						for _, x := range core.WithAnon(g) {
+							if !seen[x] {
+								seen[x] = true
+								all = append(all, x)
 							}
 						}
 					}
@@ -197,4 +206,15 @@ func withRole(ps []*procInfo, role string, registeredOnly bool) []*procInfo {
 		}
 	}
 	return out
+}
+
+// isContractMethod reports whether fo implements a method of one of the container's processor interfaces
+// (such a method is an entry point of its own, never a helper of another processor's body).
+func isContractMethod(c *core.Ctx, fo *types.Func) bool {
+	switch fo.Name() {
+	case "PostProcessProperties", "PostProcessBeforeInstantiation", "PostProcessAfterInstantiation", "PostProcessBeforeInitialization",
+		"PostProcessAfterInitialization", "PostProcessComponentFactory", "PostProcessDefinitionRegistry", "GetEarlyBeanReference", "Order":
+		return true
+	}
+	return false
 }
